@@ -1396,8 +1396,12 @@ void hawk_clrpt (hawk_t* hawk, hawk_nde_t* tree)
 				HAWK_ASSERT (px->left->next == HAWK_NULL);
 				HAWK_ASSERT (px->right->next == HAWK_NULL);
 
-				hawk_clrpt (hawk, px->left);
 				hawk_clrpt (hawk, px->right);
+				/* the parser builds a left-leaning chain of any length
+				 * for a+a+a+... in a loop. don't recurse into the left
+				 * operand. chain it to the nodes to visit next instead. */
+				px->left->next = next;
+				next = px->left;
 				hawk_freemem (hawk, p);
 				break;
 			}
